@@ -373,7 +373,16 @@ func vfC09Run(e *vfEnv, r *vfResult, idx int) { //nolint:cyclop,maintidx
 		addServer("10.255.0.2")
 	case "srflx-mapped":
 		cfg.CandidateTypes = []CandidateType{CandidateTypeHost, CandidateTypeServerReflexive}
-		opts = append(opts, WithAddressRewriteRules(AddressRewriteRule{External: []string{"203.0.113.5", "203.0.113.6"}, AsCandidateType: CandidateTypeServerReflexive, Mode: AddressRewriteReplace}))
+		ext := [][]string{
+			{"203.0.113.5", "203.0.113.6"}, {"203.0.113.5"},
+			{"fe80::77", "2001:db8:5::1"}, // a link-local external address (never publishable) listed first
+			{"fe80::77"}, {"2001:db8:5::1", "fe80::77", "203.0.113.5"},
+		}[rng.IntN(5)]
+		if rng.IntN(2) == 0 {
+			cfg.NetworkTypes = []NetworkType{NetworkTypeUDP4, NetworkTypeUDP6}
+			cfg.Net = newVfNet(x.sw, "A", vfIface{Name: "eth0", IPs: append(append([]string{}, ips...), "2001:db8:aa::1")})
+		}
+		opts = append(opts, WithAddressRewriteRules(AddressRewriteRule{External: ext, AsCandidateType: CandidateTypeServerReflexive, Mode: AddressRewriteReplace}))
 	case "relay", "host+srflx+relay":
 		cfg.CandidateTypes = []CandidateType{CandidateTypeRelay}
 		if x.kind != "relay" {
@@ -407,6 +416,13 @@ func vfC09Run(e *vfEnv, r *vfResult, idx int) { //nolint:cyclop,maintidx
 		x.tmux = &vfFakeTCPMux{addr: &net.TCPAddr{IP: net.IPv4zero, Port: 9999}}
 		cfg.TCPMux = x.tmux
 	}
+	// fault: Close of a socket (the agent's own, or the relayed connection of a TURN allocation) reports an error
+	switch rng.IntN(6) {
+	case 0:
+		x.sw.closeErr["relay-alloc"] = true
+	case 1:
+		x.sw.closeErr["A"] = true
+	}
 	// fault: the n-th socket the agent asks for cannot be opened
 	if rng.IntN(4) == 0 {
 		x.sw.failListen = map[int]bool{1 + rng.IntN(4) + len(x.srv): true}
@@ -433,7 +449,7 @@ func vfC09Run(e *vfEnv, r *vfResult, idx int) { //nolint:cyclop,maintidx
 	}
 	wit := func() map[string]any {
 		return map[string]any{"idx": idx, "kind": x.kind, "ips": ips, "trace": x.trace, "ip_filter_set": cfg.IPFilter != nil, "listen_fault": fmt.Sprint(x.sw.failListen),
-			"turn_faults": fmt.Sprintf("%+v", x.turn != nil && (x.turn.failListen || x.turn.failAlloc))}
+			"turn_faults": fmt.Sprintf("%+v", x.turn != nil && (x.turn.failListen || x.turn.failAlloc)), "close_error_fault": fmt.Sprint(x.sw.closeErr)}
 	}
 	nCycles := 1 + rng.IntN(3)
 	final := []string{"close", "close", "graceful-close", "restart-then-close"}[rng.IntN(4)]
